@@ -256,8 +256,17 @@ Fixpoint c16_loop (cur : snapshot) (busy : list nat) (crashed : bool) (tr : list
   | [] => true
   | ESnap s :: t => c16_loop s busy crashed t
   | ECall h _ :: t => c16_loop cur (h :: busy) crashed t
-  | ERet h _ _ :: t =>
+  | ERet h op r :: t =>
       let busy' := filter (fun x => negb (Nat.eqb x h)) busy in
+      (* Close and Clean succeed on any stack (also an empty one); nothing panics *)
+      (match op, r with
+       | _, RPanic => false
+       | AClose, ROk | AClose, RNoStack => true
+       | AClose, _ => false
+       | AClean, (ROk | RLockFailure | RNoStack) => true
+       | AClean, _ => false
+       | _, _ => true
+       end) &&
       (if crashed || negb (match busy' with [] => true | _ => false end) then true else clean_dir cur)
       && c16_loop cur busy' crashed t
   | ECrash _ :: t => c16_loop cur busy true t
